@@ -3,6 +3,7 @@ from __future__ import annotations
 
 import ast
 
+from oracles import tables as O
 from sa.absint import AObj, EnumV, FlagV, Interp, Opaque, Sym, Tok, to_text
 from sa.cbmodel import Runner
 from sa.pyindex import get_index
@@ -109,43 +110,61 @@ def r09_2(ctx):
     ctx.check("`!` is not folded by the unary folder", [o.value for o in outs] == [None], "None", str([lab(o.value) for o in outs]), fn_where(idx, fi))
     # --- binary arithmetic: operator table and result type
     fa = idx.func("RZILTransformer.simplify_arithmetic_expr")
-    ops = {}
-    for n in ast.walk(fa.node):
-        if isinstance(n, ast.match_case) and isinstance(n.pattern, ast.MatchValue) and isinstance(n.pattern.value, ast.Constant):
-            for s in n.body:
-                if isinstance(s, ast.Assign) and U(s.targets[0]) == "result" and isinstance(s.value, ast.BinOp):
-                    ops[n.pattern.value.value] = (type(s.value.op).__name__, U(s.value.left), U(s.value.right))
-    exp_ops = {"+": ("Add", "val_a", "val_b"), "-": ("Sub", "val_a", "val_b"), "*": ("Mult", "val_a", "val_b")}
-    for k, v in exp_ops.items():
-        ctx.check(f"fold binary {k}", ops.get(k) == v, str(v), str(ops.get(k)), fn_where(idx, fa))
-    div = ops.get("/")
-    ctx.check("fold binary / never approximates (true division; an inexact or zero division cannot be emitted and is rejected)", div is None or div == ("Div", "val_a", "val_b"),
-              "no fold, or exact division only", str(div), fn_where(idx, fa), note="Python's // floors, C truncates toward zero")
-    for sa, wa, sb, wb, exp in ((True, 32, True, 32, (True, 32)), (True, 32, False, 32, (False, 32)), (False, 32, True, 64, (True, 64)), (False, 64, True, 32, (False, 64))):
-        r = Runner(idx, keep_real=("simplify_arithmetic_expr",))
-        fi, outs = r.run("simplify_arithmetic_expr", lambda: [[number(r, "a", 6, sa, wa), Tok("ADD_OP", "+"), number(r, "b", 3, sb, wb)]], args_list=True)
+    # value and type of every folded binary operation agree with the C11 evaluation of the unfolded expression
+    def tname(t):
+        return f"({'s' if t[0] else 'u'},{t[1]})"
+
+    def folded(q, op_tok, op, a, ta, b, tb):
+        r = Runner(idx, keep_real=(q,))
+        fi, outs = r.run(q, lambda: [[number(r, "a", a, ta[0], ta[1]), Tok(op_tok, op), number(r, "b", b, tb[0], tb[1])]], args_list=True)
+        res = set()
         for o in outs:
             v = o.value
-            t = ctor(v, "v_type") if isinstance(v, AObj) and v.cls == "Number" else None
-            sig = (t.fields.get("_signed"), t.fields.get("_bit_width")) if isinstance(t, AObj) else outcome_text(o)[:40]
-            ctx.check(f"fold binary + type [({'s' if sa else 'u'},{wa}) , ({'s' if sb else 'u'},{wb})]", sig == exp and ctor(v, "val") == 9, f"value 9 : {exp}", f"{ctor(v, 'val') if isinstance(v, AObj) else '?'} : {sig}", fn_where(idx, fi))
-    wraps = any(isinstance(n, ast.BinOp) and isinstance(n.op, (ast.BitAnd, ast.Mod)) for n in ast.walk(fa.node)) or any(isinstance(n, ast.Call) and call_tail(n) in ("wrap", "truncate", "to_width") for n in ast.walk(fa.node))
-    ctx.check("folded arithmetic value is reduced to the width of its type", wraps, "result masked/wrapped to the result type", "result = val_a op val_b (unbounded Python integer) used as is", fn_where(idx, fa))
-    # --- comparisons: must look at the operand types (signedness) like the run-time twin
+            if o.kind == "raise":
+                res.add(("reject",))
+            elif isinstance(v, AObj) and v.cls == "Number":
+                t = ctor(v, "v_type")
+                val = ctor(v, "val")
+                tt = (t.fields.get("_signed"), t.fields.get("_bit_width")) if isinstance(t, AObj) else None
+                res.add(("value", O.c_convert(val, tt) if isinstance(val, int) and not isinstance(val, bool) and tt else val, tt))
+            elif isinstance(v, AObj) and v.cls == "Bool":
+                res.add(("bool", bool(ctor(v, "val"))))
+            else:
+                res.add(("other", lab(v)))
+        return fi, res
+
+    operands = O.FOLD_OPERANDS if ctx.env.tier == "thorough" else O.FOLD_OPERANDS_QUICK
+    ctx.need(len(operands) >= 8, "oracle operand table too small")
+    for op in ("+", "-", "*", "/"):
+        bad = []
+        n = 0
+        for a, ta in operands:
+            for b, tb in operands:
+                exp = O.c_fold(op, a, ta, b, tb)
+                fi, got = folded("simplify_arithmetic_expr", "ARITH_OP", op, a, ta, b, tb)
+                n += 1
+                if got != {exp}:
+                    bad.append(f"{a}:{tname(ta)} {op} {b}:{tname(tb)} -> {sorted(map(str, got))}, C11: {exp}")
+        ctx.check(f"fold binary {op}: value and type over {n} operand pairs", not bad, "C11 value reduced to the common type of the promoted operands (inexact or zero division rejected)",
+                  f"{len(bad)} disagreements, e.g. {bad[:3]}", fn_where(idx, fa))
     fc = idx.func("RZILTransformer.simplify_compare_expr")
-    uses_types = any(isinstance(n, ast.Attribute) and n.attr in ("value_type", "signed", "bit_width") for n in ast.walk(fc.node)) or any(isinstance(n, ast.Call) and call_tail(n) in ("c11_cast", "promoted_type", "cast_operands") for n in ast.walk(fc.node))
-    ctx.check("folded comparison converts its operands to the common type first", uses_types, "operand types consulted (usual arithmetic conversions)", "Python comparison of the raw literal values; operand types are never read", fn_where(idx, fc))
-    cmp_ops = {}
-    for n in ast.walk(fc.node):
-        if isinstance(n, ast.match_case) and isinstance(n.pattern, ast.MatchValue) and isinstance(n.pattern.value, ast.Constant):
-            for s in n.body:
-                if isinstance(s, ast.Assign) and isinstance(s.value, ast.Compare):
-                    cmp_ops[n.pattern.value.value] = (type(s.value.ops[0]).__name__, U(s.value.left), U(s.value.comparators[0]))
-    exp_cmp = {"<": "Lt", ">": "Gt", "<=": "LtE", ">=": "GtE", "==": "Eq", "!=": "NotEq"}
-    for k, v in exp_cmp.items():
-        ctx.check(f"fold comparison {k}", cmp_ops.get(k) == (v, "val_a", "val_b"), f"val_a {k} val_b", str(cmp_ops.get(k)), fn_where(idx, fc))
-    rets = [p for p in paths_of(fc.node) if p.outcome == "return" and p.value is not None and not (isinstance(p.value, ast.Constant) and p.value.value is None)]
-    ctx.check("folded comparison yields a Bool literal", bool(rets) and all(call_name(p.value) == "Bool" for p in rets), "Bool(name, result)", str({U(p.value)[:40] for p in rets}), fn_where(idx, fc))
+    for op in ("<", ">", "<=", ">=", "==", "!="):
+        bad = []
+        n = 0
+        for a, ta in operands:
+            for b, tb in operands:
+                exp = O.c_fold(op, a, ta, b, tb)
+                fi, got = folded("simplify_compare_expr", "CMP_OP", op, a, ta, b, tb)
+                n += 1
+                if got != {exp}:
+                    bad.append(f"{a}:{tname(ta)} {op} {b}:{tname(tb)} -> {sorted(map(str, got))}, C11: {exp}")
+        ctx.check(f"fold comparison {op}: truth value over {n} operand pairs", not bad, "operands converted to the common type, then compared",
+                  f"{len(bad)} disagreements, e.g. {bad[:3]}", fn_where(idx, fc))
+    # bool literals (folded comparisons) are promoted like any other operand
+    for op in ("+", "-", "*"):
+        fi, got = folded("simplify_arithmetic_expr", "ARITH_OP", op, 1, (False, 1), 1, (False, 1))
+        exp = O.c_fold(op, 1, (False, 1), 1, (False, 1))
+        ctx.check(f"fold binary {op} on two folded truth values", got == {exp}, str(exp), str(sorted(map(str, got))), fn_where(idx, fa))
     # --- constant condition of ?:
     r = Runner(idx, keep_real=("simplify_conditional_expr",))
     for val, exp in ((1, "items[1]"), (0, "items[2]"), (7, "items[1]")):
@@ -164,7 +183,23 @@ def r09_3(ctx):
     ctx.need(inl, "inlined_pure_classes not found")
     letvars = set(idx.subclasses("LetVar", strict=True))
     ctx.check("every literal class is inlined (needs no declaration)", all(c in inl[0] for c in letvars), f"{sorted(letvars)} in inlined_pure_classes", inl[0], fn_where(idx, init))
-    for q in ("simplify_unary_expr", "simplify_arithmetic_expr", "simplify_compare_expr", "simplify_conditional_expr"):
+    # the folders and every transformer helper they (transitively) hand an operand to
+    work = ["simplify_unary_expr", "simplify_arithmetic_expr", "simplify_compare_expr", "simplify_conditional_expr"]
+    seen_q = []
+    while work:
+        q = work.pop(0)
+        if q in seen_q:
+            continue
+        seen_q.append(q)
+        fi = idx.func(f"RZILTransformer.{q}")
+        for n in ast.walk(fi.node):
+            if isinstance(n, ast.Call) and isinstance(n.func, ast.Attribute) and isinstance(n.func.value, ast.Name) and n.func.value.id == "self" \
+                    and idx.resolve_method("RZILTransformer", n.func.attr) is not None and n.func.attr not in seen_q:
+                callee = idx.resolve_method("RZILTransformer", n.func.attr)
+                if any(isinstance(c, ast.Call) and call_tail(c) == "rm_op_by_name" for c in ast.walk(callee.node)) or \
+                        any(isinstance(c, ast.Call) and isinstance(c.func, ast.Attribute) and isinstance(c.func.value, ast.Name) and c.func.value.id == "self" for c in ast.walk(callee.node)):
+                    work.append(n.func.attr)
+    for q in seen_q:
         fi = idx.func(f"RZILTransformer.{q}")
         for p in paths_of(fi.node):
             for e in p.calls(tail="rm_op_by_name"):
